@@ -48,6 +48,19 @@ def check(ctx: Ctx) -> list[RuleResult]:
                 async_entries += [c for c in s2.callees if c.module.name == MOD]
     # ... plus the waiting coroutine's own timeout path
     async_entries.append(repo.func(f"{MOD}.BindStateBase._wait_for_fut_result"))
+    # ... plus what a coroutine calls in the handler of a try whose body awaited (the failure path of a send): anything may have
+    # arrived - and completed the state's future - while that await was pending
+    for f in funcs:
+        if not f.is_async:
+            continue
+        for t in own_nodes(f.node):
+            if isinstance(t, ast.Try) and any(isinstance(x, ast.Await) for b in t.body for x in ast.walk(b)):
+                for h in t.handlers:
+                    for c in ast.walk(h):
+                        if isinstance(c, ast.Call):
+                            site = ctx.cg.site_of.get(id(c))
+                            if site is not None:
+                                async_entries += [g for g in site.callees if g.module.name == MOD]
     reach = set(ctx.cg.reachable(async_entries))
     in_scope = [f for f in funcs if f in reach]
     out_scope = [f for f in funcs if f not in reach and any(isinstance(n, ast.Call) and isinstance(n.func, ast.Attribute) and n.func.attr in ("set_result", "set_exception") for n in own_nodes(f.node))]
